@@ -6,6 +6,7 @@ let () =
   | _ :: "timing2" :: _ -> M_timing.run2 ()
   | _ :: "async" :: _ -> M_async.run ()
   | _ :: "asyncw" :: _ -> M_asyncw.run ()
+  | _ :: "genlife" :: _ -> M_genlife.run ()
   | _ :: "cexec" :: _ -> M_cexec.run ()
   | _ :: "crun" :: _ -> M_crun.run ()
   | _ :: "cchan" :: _ -> M_cchan.run ()
